@@ -144,24 +144,34 @@ type flatOutcome struct {
 }
 
 // stepFlat runs one byte and follows re-dispatches (`off--`) of the same byte.
+// A re-dispatch into a state already seen in the chain can never consume the
+// byte: no-progress.
 func (ex *explorer) stepFlat(in *Interp, x *State, b int, depth int, pr *procResult) []Outcome {
-	outs := ex.m.Step(in, x, b)
+	return ex.stepChain(in, x, b, map[string]bool{ex.m.Key(x): true}, depth, pr)
+}
+
+func (ex *explorer) stepChain(in *Interp, x *State, b int, chain map[string]bool, depth int, pr *procResult) []Outcome {
+	outs := dedupeOutcomes(ex.m, ex.m.Step(in, x, b))
 	pr.arms++
 	var res []Outcome
 	for _, o := range outs {
 		if o.Kind == "next" && o.Redispatch {
-			if depth >= 3 {
-				o.Kind = "no-progress"
-				res = append(res, o)
-				continue
-			}
 			if len(o.Items) > 0 {
 				o.Kind = "undecided"
 				o.Why = "re-dispatch after consuming look-ahead"
 				res = append(res, o)
 				continue
 			}
-			for _, o2 := range ex.stepFlat(in, o.Next, b, depth+1, pr) {
+			k := ex.m.Key(o.Next)
+			if chain[k] || depth >= 4 {
+				o.Kind = "no-progress"
+				res = append(res, o)
+				continue
+			}
+			chain[k] = true
+			sub := ex.stepChain(in, o.Next, b, chain, depth+1, pr)
+			delete(chain, k)
+			for _, o2 := range sub {
 				o2.Events = append(append([]Event{}, o.Events...), o2.Events...)
 				o2.Pops = append(append([]string{}, o.Pops...), o2.Pops...)
 				o2.Pushes = append(append([]pushRec{}, o.Pushes...), o2.Pushes...)
@@ -169,11 +179,14 @@ func (ex *explorer) stepFlat(in *Interp, x *State, b int, depth int, pr *procRes
 				o2.ReadStale = append(append([]string{}, o.ReadStale...), o2.ReadStale...)
 				res = append(res, o2)
 			}
+			if len(res) > 5000 {
+				return []Outcome{{Kind: "undecided", Why: "too many outcomes while following re-dispatches"}}
+			}
 			continue
 		}
 		res = append(res, o)
 	}
-	return res
+	return dedupeOutcomes(ex.m, res)
 }
 
 type yset struct {
